@@ -73,6 +73,15 @@ def generate(rs: int, tier: str, index: int) -> dict:
                 col[j] = ch.choice([1, -1]) if kindc == "int" else ch.choice([1.0, -1.0])
             elif ch.chance(0.2) and kindc == "complex":
                 col[j] = ch.choice([[1.0, 0.0], [-1.0, 0.0], [0.0, 1.0], [0.0, -1.0], [-0.0, -1.0], [-2.0, 0.0], [0.6, 0.8], [2.0, 1e-15], [0.0, 1e-20], [-1.5, -3e-16]])
+    cn1 = ch.sub("nearly-one")
+    if kindc in ("float", "complex") and cn1.chance(0.12):
+        # coefficients a hair away from +1 / -1 (the values an omitted coefficient stands for): close is not equal
+        near = [1 + 1e-9, 1 - 1e-7, -(1 - 1e-7), -(1 + 1e-9), 1 + 2.220446049250313e-16, -(1 - 1.1102230246251565e-16), 1.000001, -0.9999999]
+        for col in lit["coefficients"]:
+            for j in range(len(col)):
+                if cn1.chance(0.5):
+                    v = cn1.choice(near)
+                    col[j] = v if kindc == "float" else [v, cn1.choice([0.0, 0.0, 2e-6, -1e-9])]
     if kindc == "int" and not sympy_case and ch.chance(0.2):
         dt = ch.choice(["int8", "int32", "uint8", "uint16", "uint64"])
         lit["dtype"] = dt
